@@ -223,12 +223,17 @@ def _term(term, z):
     return float(r)
 
 
-def _integer_valued(v, kind):
-    """an objective that counts: the floor of the raw value as a Python int / a numpy int64 (finite values only)"""
-    if not (isinstance(v, float) and math.isfinite(v)):
+def _typed(v, kind):
+    """the raw value in the type the user's objective returns: "int" / "int64" = an objective that counts (floor of
+    the value, finite values only), "float64" = the same value as a numpy scalar"""
+    if not isinstance(v, float):
+        return v
+    if kind == "float64":
+        return np.float64(v)
+    if not math.isfinite(v):
         return v
     n = math.floor(v)
-    return np.int64(n) if kind == "np" and abs(n) < 2 ** 62 else int(n)
+    return np.int64(n) if kind == "int64" and abs(n) < 2 ** 62 else int(n)
 
 
 def objective_value(task_spec, z):
@@ -237,11 +242,11 @@ def objective_value(task_spec, z):
     terms = task_spec["objective"]["terms"]
     neg = bool(task_spec["objective"].get("negate"))
     sgn = -1.0 if neg else 1.0
-    kind = task_spec["objective"].get("integer")
+    kind = task_spec["objective"].get("returns")
     scalar = task_spec["objective"].get("force_scalar") or (
         task_spec.get("weights") is None and len(terms) == 1 and not task_spec["objective"].get("as_list"))
     if scalar and kind:
-        v = _integer_valued(_term(terms[0], z), kind)       # counted first, negated afterwards (exact)
+        v = _typed(_term(terms[0], z), kind)       # counted first, negated afterwards (exact)
         return -v if neg else v
     if scalar:
         return sgn * _term(terms[0], z)
